@@ -166,6 +166,16 @@ class Membership:
             if listed != want:
                 rel = lambda xs: [os.path.relpath(x, root) for x in xs]      # noqa: E731
                 return {"expected": rel(want), "observed": rel(listed), "klass": "enumeration", "patterns": pats}
+            # overlapping code-base directories (the same one twice, one below another): every member listed once
+            subdirs = [os.path.join(cb, n) for n in sorted(os.listdir(cb)) if os.path.isdir(os.path.join(cb, n)) and not os.path.islink(os.path.join(cb, n))]
+            for dirs in ([cb, cb], [cb] + subdirs[:1], subdirs[:1] + [cb]):
+                twice = sorted(CodeBase(*dirs, exclude_patterns=pats))
+                # (with patterns, membership is judged relative to the FIRST directory that contains the file, so only
+                # the "each once" part is comparable)
+                if len(twice) != len(set(twice)) or (not pats and set(twice) != set(listed)):
+                    rel = lambda xs: [os.path.relpath(x, root) for x in xs]      # noqa: E731
+                    return {"expected": f"directories {rel(dirs)}: the members of {rel([cb])}, each once: {rel(listed)}", "observed": rel(twice),
+                            "klass": "enumeration:overlapping-directories"}
             return None
         finally:
             shutil.rmtree(root, ignore_errors=True)
